@@ -411,7 +411,15 @@ class TupleParser:
                         attrs(tup_tree)['DTDVERSION']),
                 conn_id=self.conn_id)
 
-        child = self.one_child(tup_tree, ('MESSAGE', 'DECLARATION'))
+        try:
+            child = self.one_child(tup_tree, ('MESSAGE', 'DECLARATION'))
+        except RecursionError:
+            # The parser descends recursively; elements that may contain
+            # themselves (e.g. references in keybindings of references) can be
+            # nested deeper than the Python call stack allows.
+            raise CIMXMLParseError(
+                "The CIM-XML elements are nested too deeply to be parsed",
+                conn_id=self.conn_id)
 
         return name(tup_tree), attrs(tup_tree), child
 
